@@ -287,7 +287,11 @@ def conv(e, cx, want):
         fn = e[1][2]
         a = conv(e[2][0], cx, 'int')
         if e[1][1][1] == 'coarseGrid':
-            raise TranslateError('spacing / coordinate query on the coarse grid')
+            if fn == 'radialSpacing':
+                return '(hcf %s)' % a
+            if fn == 'angularSpacing':
+                return '(kcf (wrapT nthc %s))' % a
+            raise TranslateError('coordinate query on the coarse grid')
         if fn == 'radialSpacing':
             return '(h %s)' % a
         if fn == 'angularSpacing':
@@ -759,7 +763,7 @@ Section StencilGen.
   Context {S : Sc}.
   Local Open Scope sc_scope.
   Variable nr nth nsc nthc nrc nscc : Z.
-  Variable h k rad thetaf sin_cache cos_cache : Z -> S.
+  Variable h k rad thetaf sin_cache cos_cache hcf kcf : Z -> S.
   Variable dFx_dr dFy_dr dFx_dt dFy_dt : Z -> Z -> S.
   Variable arr att art det : Z -> Z -> S.
   Variable beta : Z -> S.
@@ -795,6 +799,8 @@ def main():
         exprol = gen_prolongation(open(os.path.join(REPO, 'src/Interpolation/extrapolated_prolongation.cpp')).read(),
                                   'FINE_NODE_EXTRAPOLATED_PROLONGATION', 'applyExtrapolatedProlongation')
         restr = gen_restriction(open(os.path.join(REPO, 'src/Interpolation/restriction.cpp')).read())
+        fmg = gen_prolongation(open(os.path.join(REPO, 'src/Interpolation/fmg_interpolation.cpp')).read(),
+                               'FINE_NODE_FMG_INTERPOLATION', 'applyFMGInterpolation')
         sm_src = open(os.path.join(REPO, 'src/Smoother/SmootherTake/smootherSolver.cpp')).read()
         asc_c = gen_asc_ortho_take(sm_src, 'NODE_APPLY_ASC_ORTHO_CIRCLE_TAKE')
         asc_r = gen_asc_ortho_take(sm_src, 'NODE_APPLY_ASC_ORTHO_RADIAL_TAKE')
@@ -817,6 +823,8 @@ def main():
     out += '  Definition gen_prolongation (x : Z -> Z -> S) (i j : Z) : list gwrite :=\n    %s.\n' % prol
     out += '  (* FINE_NODE_EXTRAPOLATED_PROLONGATION (src/Interpolation/extrapolated_prolongation.cpp) *)\n'
     out += '  Definition gen_extrapolated_prolongation (x : Z -> Z -> S) (i j : Z) : list gwrite :=\n    %s.\n' % exprol
+    out += '  (* FINE_NODE_FMG_INTERPOLATION (src/Interpolation/fmg_interpolation.cpp); hcf / kcf = the coarse grid\'s spacing arrays *)\n'
+    out += '  Definition gen_fmg_interpolation (x : Z -> Z -> S) (i j : Z) : list gwrite :=\n    %s.\n' % fmg
     for nm, (dom, term, oh, ih) in zip(['circle', 'radial'], restr):
         out += '  (* applyRestriction (src/Interpolation/restriction.cpp), loop nest  for (%s) for (%s); x indexed by fine nodes *)\n' % (oh, ih)
         out += '  Definition gen_restriction_%s_visits (ic jc : Z) : bool := %s.\n' % (nm, dom)
